@@ -6,6 +6,7 @@
 import Gama.Proto
 import Gama.Model.Export
 import Gama.Model.ExportNet
+import Gama.Model.ExportWF
 open Gama Gama.Proto Gama.Export Gama.Gen.GkfAttrs Gama.Gen.GkfDoc
 
 def unhexStr (s : String) : Option String :=
@@ -201,8 +202,48 @@ def showItem : DItem → String
 def showDoc (d : Doc) : List String :=
   ["H" ++ showKV NAttr.name d.net, "T " ++ hexStr d.descr, "P" ++ showKV ParAttr.name d.par] ++ d.items.map showItem
 
+/-! ### the hypothesis of the round-trip theorems, evaluated: the same generic model at a second carrier — numbers are
+    their canonical text, conversions are symbolic — where equality of numbers is decidable, so `Net.WF` (Model/ExportWF.lean,
+    `Decidable` instance) can be computed for the network the parser returns -/
+
+def sNorm (s : String) : Option String := (float? s).map showFloat
+
+def sCodec : Codec String :=
+  { fmt := id, rd := sNorm, zero := showFloat 0.0, isZero := fun x => x == showFloat 0.0,
+    neg := fun x => if x.startsWith "-" then dropFirst x else "-" ++ x,
+    fmtI := fun i => toString i, rdI := fun s => s.trimAscii.toString.toInt?,
+    latOut := fun x => "LO(" ++ x ++ ")", latIn := fun x => "LI(" ++ x ++ ")",
+    fmtDeg := fun x => "D" ++ x, rdDeg := fun s => if s.startsWith "D" then sNorm (dropFirst s) else none,
+    toSec := fun x => "S(" ++ x ++ ")", fromSec := fun x => "U(" ++ x ++ ")",
+    pos := fun x => match float? x with | some v => v > 0.0 | none => false,
+    lt1 := fun x => match float? x with | some v => v < 1.0 | none => false,
+    ellKnown := fun _ => true, sdDist := fun s d => "SD(" ++ s ++ "," ++ d ++ ")" }
+
+def spar0 : Params String := ⟨showFloat 10.0, showFloat 0.95, showFloat 1000.0, false, true, none, none, none, -1⟩
+
+instance : DecidablePred (fun _ : String => True) := fun _ => isTrue trivial
+
+def clusterTag : Cluster String → String
+  | .obs .. => "obs" | .hdiffs .. => "hd" | .coords .. => "co" | .vectors .. => "ve"
+
+/-- `wf 1`, or `wf 0` followed by the components of `Net.WF` that fail -/
+def wfLine (d : Doc) : String :=
+  match parseNet sCodec (fun _ => "IMPL") spar0 d with
+  | .error _ => "wf -"
+  | .ok n =>
+    let R : String → Prop := fun _ => True
+    if decide (n.WF sCodec R R) then "wf 1"
+    else
+      let bad : List String :=
+        (if decide (n.par.WF sCodec R) then [] else ["par"]) ++
+        (if decide (∀ p ∈ n.points, p.id ≠ "" ∧ p.Rep R) then [] else ["ids"]) ++
+        (if decide ((n.points.map (·.id)).Nodup) then [] else ["nodup"]) ++
+        ((n.clusters.filter (fun c => !decide (c.WF sCodec R R n.par.gons n.par.sigmaApr (n.points.filter Point.active)))).map
+          clusterTag).eraseDups
+      "wf 0 " ++ " ".intercalate bad
+
 /-- model of gama-local's reading + export: parse, remove_inconsistency, export_xml; then the model's reading of its
-    own export once more (must succeed) -/
+    own export once more (must succeed); last line: the hypothesis `Net.WF` of the theorems for the network read -/
 def runNet (secs : List (List String)) : String :=
   match docOf secs with
   | .error e => "throw " ++ errName e
@@ -214,7 +255,7 @@ def runNet (secs : List (List String)) : String :=
       let again := match parseNet fCodec (fun _ => 0.0) par0 ex with
         | .ok n2 => if showDoc (exportNet fCodec n2) == showDoc ex then "again same" else "again differs"
         | .error e => "again throw " ++ errName e
-      "\n".intercalate (showDoc ex ++ [again])
+      "\n".intercalate (showDoc ex ++ [again, wfLine d])
 
 def step (_ : Unit) (line : String) : Unit × String :=
   match tokens line with
@@ -232,7 +273,7 @@ def step (_ : Unit) (line : String) : Unit × String :=
     match parseElems rest with
     | some els =>
       let outs := els.map (fun ea => match parseDh txtFmt (fun d => "SD(" ++ d ++ ")") ea.2 with
-        | .ok h => showElem (exportDh txtFmt true (fun d => !isZeroText d) h)
+        | .ok h => showElem (exportDh txtFmt true (fun d => !isZeroText d) dhStdevAlways h)
         | .error e => "throw " ++ errName e)
       ((), "\n".intercalate outs)
     | none => ((), "bad-op")
